@@ -19,6 +19,8 @@ definitions (`Gen/Dist.lean`).  `Props/C05.lean` proves that they are what the m
   formulas of the igraph branch, the loop condition;
 * `dist_to_root`, `distal_to`, `dist_between`, `segment_length`, `parent_dist`, `cable_length`: graph modes, weights,
   `root_dist`, the scalar short-cut, the `np.unique` normalisation, index / columns of the result;
+* `neuron2nx`, `neuron2igraph`, `cable_length`, `parent_dist`: whether the child - parent coordinate difference is computed in
+  float (each operand: `.astype(float)`, float by construction through `reindex`, or the columns' own dtype);
 * `TreeNeuron.segments / small_segments / cable_length / adjacency_matrix / geodesic_matrix`: callee + cache wrapper
 
 makes a theorem stop checking.  Only these facts are extracted (operators, constants, argument names, resolved
@@ -138,6 +140,60 @@ def _resolve(expr, env):
     """the expression with single-assignment locals replaced by their definitions (renaming a local is harmless)"""
     import copy
     return _u(_Subst(env).visit(copy.deepcopy(expr)))
+
+
+def _resolve_ast(expr, env):
+    import copy
+    return _Subst(env).visit(copy.deepcopy(expr))
+
+
+_FLOAT_NAMES = ('float', 'np.float64', 'numpy.float64', 'np.double', "'float'", "'float64'", '"float"', '"float64"', 'np.float_')
+
+
+def _is_float_cast(n):
+    return (isinstance(n, ast.Call) and isinstance(n.func, ast.Attribute) and n.func.attr == 'astype' and len(n.args) >= 1
+            and _u(n.args[0]) in _FLOAT_NAMES)
+
+
+class _StripCasts(ast.NodeTransformer):
+    def visit_Call(self, n):
+        self.generic_visit(n)
+        if _is_float_cast(n):
+            return n.func.value
+        return n
+
+
+def _strip_casts(expr):
+    """the expression without its `.astype(float)` calls (the cast is recorded as a fact of its own)"""
+    import copy
+    return _StripCasts().visit(copy.deepcopy(expr))
+
+
+def _mentions_xyz(n):
+    s = _u(n)
+    return "'x', 'y', 'z'" in s or '"x", "y", "z"' in s
+
+
+def _operand_kind(n):
+    """how an operand of the child - parent difference gets its dtype: an explicit float cast, float by construction
+    (`reindex` with the roots' missing parents introduces NaN), or the columns' own dtype"""
+    if _is_float_cast(n):
+        return 'cast'
+    if any(isinstance(c, ast.Call) and isinstance(c.func, ast.Attribute) and c.func.attr == 'reindex' for c in ast.walk(n)):
+        return 'reindex-nan'
+    if any(_is_float_cast(c) for c in ast.walk(n)):
+        # a cast somewhere inside, e.g. `(a.astype(float))[ix]`: the values are float
+        return 'cast'
+    return 'raw'
+
+
+def _diff_operands(expr, env, what):
+    """kinds of the two operands of the coordinate difference inside `expr` (locals resolved)"""
+    r = _resolve_ast(expr, env)
+    subs = [n for n in ast.walk(r) if isinstance(n, ast.BinOp) and isinstance(n.op, ast.Sub) and _mentions_xyz(n.left) and _mentions_xyz(n.right)]
+    if not subs:
+        raise ValueError(f'{what}: child - parent coordinate difference not found')
+    return [_operand_kind(subs[0].left), _operand_kind(subs[0].right)]
 
 
 def _cmp_parent(nodes, what):
@@ -584,9 +640,11 @@ def metrics_facts(mm):
     pyb, fcb = (py.body, py.orelse) if neg else (py.orelse, py.body)
     env = _env(pyb, skip=('w',))
     w = _one([s for s in pyb if isinstance(s, ast.Assign) and _u(s.targets[0]) == 'w'], 'parent_dist: w')
-    F['pdFormula'] = _u(w.value)
-    F['pdParentCoords'] = _resolve(ast.Name('parent_coords', ast.Load()), env)
-    F['pdChildCoords'] = _resolve(ast.Name('tn_coords', ast.Load()), env)
+    F['pdFormula'] = _u(_strip_casts(w.value))
+    F['pdParentCoords'] = _u(_strip_casts(_resolve_ast(ast.Name('parent_coords', ast.Load()), env)))
+    F['pdChildCoords'] = _u(_strip_casts(_resolve_ast(ast.Name('tn_coords', ast.Load()), env)))
+    F['pdDiff'] = _diff_operands(w.value, env, 'parent_dist')
+    F['pdFcCoords'] = [_operand_kind(a) for a in _one(_calls(fcb, 'parent_dist'), 'parent_dist[fastcore]').args if _mentions_xyz(a)]
     nanasg = [s for s in pyb if isinstance(s, ast.Assign) and isinstance(s.targets[0], ast.Subscript) and 'isnan' in _u(s.targets[0].slice)]
     F['pdRootFill'] = _u(_one(nanasg, 'parent_dist: root fill').value)
     c = _one(_calls(fcb, 'parent_dist'), 'parent_dist[fastcore]')
@@ -598,9 +656,11 @@ def metrics_facts(mm):
     neg = isinstance(d.test, ast.UnaryOp)
     pyb, fcb = (d.body, d.orelse) if neg else (d.orelse, d.body)
     asg = _one([s for s in pyb if isinstance(s, ast.Assign) and _u(s.targets[0]) == 'cable_length'], 'cable_length: python sum')
-    F['clPy'] = _u(asg.value)
+    F['clPy'] = _u(_strip_casts(asg.value))
+    F['clDiff'] = _diff_operands(asg.value, _env(pyb), 'cable_length')
     asg = _one([s for s in fcb if isinstance(s, ast.Assign) and _u(s.targets[0]) == 'cable_length'], 'cable_length: fastcore sum')
     c = _one(_calls(asg.value, 'parent_dist'), 'cable_length[fastcore]: parent_dist')
+    F['clFcCoords'] = [_operand_kind(a) for a in c.args if _mentions_xyz(a)]
     F['clFcKws'] = _kws(c)
     F['clFcReduce'] = asg.value.func.attr if isinstance(asg.value, ast.Call) and isinstance(asg.value.func, ast.Attribute) else ''
     # mask: orphaned parents become roots
@@ -618,7 +678,8 @@ def converter_facts(conv):
     br = _one([s for s in fn.body if isinstance(s, ast.If) and 'TreeNeuron' in _u(s.test) and 'NeuronList' not in _u(s.test)], 'neuron2nx: TreeNeuron branch')
     env = _env(br.body)
     w = _one([s for s in br.body if isinstance(s, ast.Assign) and _u(s.targets[0]) == 'weights'], 'neuron2nx: weights')
-    F['nxWeights'] = ''.join(_u(w.value).split())
+    F['nxWeights'] = ''.join(_u(_strip_casts(w.value)).split())
+    F['nxDiff'] = _diff_operands(w.value, {k: v for k, v in env.items() if k != 'weights'}, 'neuron2nx')
     F['nxEdges'] = _resolve(ast.Name('edges', ast.Load()), {k: v for k, v in env.items() if k == 'edges'})
     F['nxElist'] = _resolve(ast.Name('elist', ast.Load()), {k: v for k, v in env.items() if k == 'elist'})
     F['nxAdd'] = sorted(_u(c.func).split('.')[-1] + ':' + ','.join(_u(a) for a in c.args) for c in _walk(br.body)
@@ -632,8 +693,9 @@ def converter_facts(conv):
     if not el:
         raise ValueError('neuron2igraph: elist not found')
     F['igElist'] = _u(el[0].value)
-    F['igChildCoords'] = _resolve(ast.Name('tn_coords', ast.Load()), {k: v for k, v in env.items() if k in ('tn_coords',)})
-    F['igParentCoords'] = _resolve(ast.Name('parent_coords', ast.Load()), {k: v for k, v in env.items() if k in ('parent_coords',)})
+    F['igChildCoords'] = _u(_strip_casts(_resolve_ast(ast.Name('tn_coords', ast.Load()), {k: v for k, v in env.items() if k in ('tn_coords',)})))
+    F['igParentCoords'] = _u(_strip_casts(_resolve_ast(ast.Name('parent_coords', ast.Load()), {k: v for k, v in env.items() if k in ('parent_coords',)})))
+    F['igDiff'] = _diff_operands(w.value, {k: v for k, v in env.items() if k in ('tn_coords', 'parent_coords')}, 'neuron2igraph')
     g = _one([c for c in _calls(br.body, 'Graph')], 'neuron2igraph: Graph()')
     F['igGraphKws'] = _kws(g)
     at = [s for s in br.body if isinstance(s, ast.Assign) and any('G.es' in _u(t) or 'G.vs' in _u(t) for t in s.targets)]
@@ -864,6 +926,16 @@ def generate(repo: Path):
     L.append(f'def igParentCoords : String := {lstr(C["igParentCoords"])}')
     L.append(f'def igGraphKws : List String := {lstrs(C["igGraphKws"])}')
     L.append(f'def igAttrs : List String := {lstrs(C["igAttrs"])}')
+    L.append('/-- how the two operands (child, parent) of the coordinate difference get their dtype at every site that computes an edge')
+    L.append('length in Python: "cast" = `.astype(float)`, "reindex-nan" = float by construction (reindex introduces NaN for the roots),')
+    L.append('"raw" = the coordinate columns\' own dtype (the `.astype(float)` calls are stripped from the expressions above) -/')
+    L.append(f'def nxDiffOperands : List String := {lstrs(C["nxDiff"])}')
+    L.append(f'def igDiffOperands : List String := {lstrs(C["igDiff"])}')
+    L.append(f'def clDiffOperands : List String := {lstrs(M["clDiff"])}')
+    L.append(f'def pdDiffOperands : List String := {lstrs(M["pdDiff"])}')
+    L.append('/-- the coordinate argument handed to navis-fastcore `parent_dist` by `parent_dist` / `cable_length` -/')
+    L.append(f'def pdFcCoords : List String := {lstrs(M["pdFcCoords"])}')
+    L.append(f'def clFcCoords : List String := {lstrs(M["clFcCoords"])}')
     L.append('')
     L.append('/-! ### `TreeNeuron` views: (callee, positional arguments, keywords, decorators) -/')
     for prop in ('segments', 'small_segments', 'cable_length', 'adjacency_matrix', 'geodesic_matrix'):
